@@ -194,6 +194,29 @@ theorem C04_wire_truthful (retries : Nat) (rc : RC) (st : Nat) :
   have ha : ¬ attempts retries ≤ 0 := by unfold attempts; split <;> omega
   cases h : acknowledged rc st <;> simp [phase2, cancelled, ha]
 
+/-- the same for a rollback ("a failed second phase always surfaces to the caller"): the answer to a rollback
+    request is an acknowledgement exactly when its status does not say the transaction is committed, committing
+    or failed to roll back, and it says a rollback is under way or done, or the result code is Success -/
+theorem C04_rollback_acknowledged_iff (rc : RC) (st : Nat) :
+    rollbackAcknowledged rc st = true ↔ notRolledBack st = false ∧ (rollingBack st = true ∨ rc = .success) := by
+  unfold rollbackAcknowledged
+  cases hn : notRolledBack st <;> cases hr : rollingBack st <;> cases rc <;> simp
+
+/-- a rollback answered "Committed" (the transaction the caller believes it is rolling back was committed) or
+    "RollbackFailed" is never reported as done, whatever the result code -/
+theorem C04_rollback_refusal_surfaces (rc : RC) (st : Nat) (h : notRolledBack st = true) :
+    rollbackAcknowledged rc st = false := by
+  unfold rollbackAcknowledged; simp [h]
+
+theorem C04_rollback_families_disjoint (st : Nat) : ¬ (notRolledBack st = true ∧ rollingBack st = true) := by
+  unfold notRolledBack rollingBack
+  simp only [List.mem_cons, List.mem_nil_iff, or_false, decide_eq_true_eq]
+  omega
+
+/-- before the repair a rollback the coordinator refused, or answered with "Committed", was a success -/
+theorem C04_before_fix_refused_rollback_is_success :
+    rollbackAcknowledgedBeforeFix .failed 9 = true ∧ rollbackAcknowledged .failed 9 = false := by decide
+
 /-- before the repair a refused commit was reported as success (finding C04-refused-commit, closed) -/
 theorem C04_before_fix_refused_commit_is_success :
     withGlobalTxBeforeFix 5 .ok .ok [.failed] none = ([.begin, .commit], .ok) := by decide
